@@ -186,3 +186,13 @@ def pipeline_guard(run, classes, first_own_line):
         if "exc" in a and ln < first_own_line:
             return Result("ok", list(classes) + ["pipeline-exception", "pipeline-exception:%s:%s" % (run.sc.lines[ln - 1].split()[0], a["exc"][:40])], False)
     return None
+
+
+def warmup(ctx, mdl, upto="hcompute"):
+    """runs the same lattice/Hamiltonian under another symmetry partition in the same runner process first: a second set of library
+    objects of the same size but different block structure in one process (process-global state in the library would leak)"""
+    w = dict(mdl)
+    mode = (mdl.get("symm") or {"mode": "default"})["mode"]
+    w["symm"] = {"mode": "default"} if mode == "ignore" else {"mode": "ignore"}
+    w.pop("repeat", None)
+    return ModelRun(ctx, w, [("blocks2", "blocks")], upto=upto)
